@@ -504,6 +504,8 @@ pub fn generate(family: &str, size: usize, seed: u64) -> Vec<String> {
             out.extend(tmp.into_iter().map(|l| format!("A{}", &l[1..])));
         }
         "pol" => policy_cases(&mut rng, size, &mut out),
+        "fa_two" => two_reader_cases("fa", &mut rng, size, &mut out),
+        "fq_two" => two_reader_cases("fq", &mut rng, size, &mut out),
         "fa_amix" => alloc_mixed("fa", &mut rng, size, &mut out),
         "fq_amix" => alloc_mixed("fq", &mut rng, size, &mut out),
         "fa_cfg" => config_lattice("fa", &mut rng, size, &mut out),
@@ -1043,6 +1045,75 @@ pub fn alloc_cases(fmt: &str, rng: &mut Rng, n: usize, out: &mut Vec<String>) {
             seek_fails: vec![],
             ops,
             input: f,
+        };
+        out.push(c.show());
+    }
+}
+
+/// Two readers that share the three record sets (and the position slots): a history on reader A, then a second
+/// reader B is opened (`T<input>`) over (a) the same content with the other line terminator, (b) a file of exactly
+/// the same length and line structure but different letters, or (c) an unrelated file; histories on B, switches
+/// between the readers (`w`), dumps of all sets after every set read.
+pub fn two_reader_cases(fmt: &str, rng: &mut Rng, n: usize, out: &mut Vec<String>) {
+    for _ in 0..n {
+        let a = rand_input(fmt, rng, 5);
+        let b = match rng.below(4) {
+            0 => {
+                // other line terminator
+                if a.windows(2).any(|w| w == b"\r\n") {
+                    a.iter().cloned().filter(|&c| c != b'\r').collect::<Vec<u8>>()
+                } else {
+                    let mut v = vec![];
+                    for &c in &a {
+                        if c == b'\n' {
+                            v.push(b'\r');
+                        }
+                        v.push(c);
+                    }
+                    v
+                }
+            }
+            1 | 2 => a
+                .iter()
+                .map(|&c| match c {
+                    b'A' => b'C',
+                    b'C' => b'A',
+                    b'G' => b'T',
+                    b'T' => b'G',
+                    b'a'..=b'y' => c + 1,
+                    b'I' => b'J',
+                    b'J' => b'I',
+                    _ => c,
+                })
+                .collect(),
+            _ => rand_input(fmt, rng, 5),
+        };
+        let big = a.len().max(b.len());
+        let small = rng.range(3, 24);
+        let cap = *rng.pick(&[big + 5, big + 5, 64, 256, 4096, small, big / 2 + 3]);
+        let l1 = rng.range(1, 6);
+        let mut ops = rand_history(fmt, rng, &a, true, l1);
+        ops.push(Op::Second(b.clone()));
+        let l2 = rng.range(1, 6);
+        ops.extend(rand_history(fmt, rng, &b, true, l2));
+        let rounds = rng.range(1, 5);
+        for _ in 0..rounds {
+            ops.push(Op::Toggle);
+            let inp = if ops.iter().filter(|o| matches!(o, Op::Toggle)).count() % 2 == 1 { &a } else { &b };
+            let l3 = rng.range(1, 4);
+            ops.extend(rand_history(fmt, rng, inp, true, l3));
+        }
+        ops.extend([Op::Next, Op::Dump(0), Op::Dump(1), Op::Dump(2), Op::Toggle, Op::Next, Op::Next]);
+        let c = Case {
+            kind: "R".to_string(),
+            fmt: fmt.to_string(),
+            cap: cap.max(3),
+            pol: wf_policy(rng),
+            chunk: *rng.pick(&[0usize, 0, 1, 5]),
+            script: vec![],
+            seek_fails: vec![],
+            ops,
+            input: a,
         };
         out.push(c.show());
     }
